@@ -25,7 +25,7 @@ LEVEL = "model_checking"
 OPTIONS = {"quick": {"max_paths": 200000, "unit_budget_s": 600}, "thorough": {"max_paths": 2000000, "unit_budget_s": 3300}}
 BOUNDS = {
     "quick": {"regex": "all compiled patterns, pump length unbounded (fixpoint)", "scanner": "all strings of length <= 5 over code points < U+0800", "receive": "17 seed messages + one trailing element with symbolic tag / content; termination under a 10 s per-path watchdog", "big_integers": "4 seed messages x every constructed value + one appended element whose tag number is any value below 2**42 (six symbolic identifier octets): no left shift by an input-chosen amount that can exceed 2**20 bits"},
-    "thorough": {"regex": "same", "scanner": "all strings of length <= 7 over code points < U+0800, length <= 5 over all scalar values"},
+    "thorough": {"regex": "same", "receive": "same", "big_integers": "same", "scanner": "all strings of length <= 7 over code points < U+0800, length <= 5 over all scalar values"},
 }
 OUTSIDE = [
     "polynomial ambiguity of degree > 2 in the regular expressions is not decided (only exponential ambiguity)",
